@@ -113,6 +113,21 @@ fn run_one(sc: &Value) {
             code.push(0xC3);
             fa.put_bytes(foff, &code);
         }
+        "selfmod" => {
+            // a generated function that keeps writable state on its own (rwx) page: `inc dword [rip+26]` bumps a counter
+            // 32 bytes behind the entry, then it returns its id
+            let mut code = vec![0xFF, 0x05];
+            code.extend_from_slice(&26i32.to_le_bytes());
+            code.push(0xB8);
+            code.extend_from_slice(&ORIG_ID.to_le_bytes());
+            code.push(0xC3);
+            if foff + 36 <= fa.len {
+                fa.put_bytes(foff, &code);
+                fa.put_bytes(foff + 32, &[0, 0, 0, 0]);
+            } else {
+                fa.put_stub(foff, ORIG_ID);
+            }
+        }
         "nop" => {
             let mut code = vec![0x90, 0x90, 0x90, 0xB8];
             code.extend_from_slice(&ORIG_ID.to_le_bytes());
@@ -152,7 +167,11 @@ fn run_one(sc: &Value) {
     if has_next {
         fa.put_stub(foff + next_off, ORIG_ID + 2);
     }
-    fa.seal();
+    if prologue == "selfmod" {
+        fa.seal_pages(0, fa.len / 4096, libc::PROT_READ | libc::PROT_WRITE | libc::PROT_EXEC);
+    } else {
+        fa.seal();
+    }
     // fake arena
     let mut fake_arena = None;
     if rust_fake.is_none() && flavour != "bool" {
@@ -283,6 +302,13 @@ fn run_one(sc: &Value) {
     let entry2 = unsafe { std::slice::from_raw_parts(func_addr as *const u8, 16) }.to_vec();
     emit(json!({"ev":"Dropped","entry":entry2,"live":interpose::owned_live()}));
     emit(json!({"ev":"Called","phase":"dropped","res":call_stub(func_addr)}));
+    if prologue == "selfmod" && foff + 36 <= fa.len {
+        // the restored function runs as before: it can still update the state it keeps next to its code
+        let c0 = unsafe { *((func_addr + 32) as *const u32) };
+        let r = call_stub(func_addr);
+        let c1 = unsafe { *((func_addr + 32) as *const u32) };
+        emit(json!({"ev":"Neighbour","which":"own-state-after-drop","res": if r == ORIG_ID && c1 == c0 + 1 { ORIG_ID } else { 0 },"want":ORIG_ID}));
+    }
     if has_next && body_addr == 0 {
         emit(json!({"ev":"Neighbour","which":"next-after-drop","res":call_stub(func_addr + next_off as u64),"want":ORIG_ID + 2,"packed":packed}));
     }
